@@ -3,6 +3,7 @@
 //	danglingFalse  d2compiler hasBoard/hasBoardPath: `if len(ida) == 1 { return false }`  (legacy: `return root.Name == id…`)
 //	singleRoot     d2compiler hasBoard strips one leading `root` (`ida = ida[1:]`)         (legacy: recursive call on every `root`)
 //	idaPerLevel    d2graph (*Graph).IDA determines the container kind inside the walk up the parents (legacy: once, for g)
+//	keepKeywordCase d2ast.RawString quotes keys equal to a reserved keyword up to case (legacy: unquoted, lower-cased by d2format)
 //	relinkByValue  d2cli relink compares a normalised key (a call in place of `shape.Link == k`)   (legacy: `shape.Link == k`)
 //
 // The Lean model (D2V/Model/Links.lean) takes these four flags; lean/D2V/Props/C35.lean proves the property's first
@@ -133,6 +134,18 @@ func gen(t *tl.T) {
 			t.Fail("relink compares a normalised key but boardLinkKey (ParseKey + StringIDA joined by \".\") is not there")
 		}
 	}
+	// 5. does d2ast.RawString quote a key that equals a reserved keyword only case-insensitively (so that the
+	//    formatter keeps its spelling), or is it written unquoted and lower-cased by d2format?
+	rs := t.Func("d2ast/d2ast.go", "", "RawString")
+	keepCase := false
+	ast.Inspect(rs.Body, func(n ast.Node) bool {
+		if ix, ok := n.(*ast.IndexExpr); ok {
+			if id, ok := ix.X.(*ast.Ident); ok && id.Name == "ReservedKeywords" {
+				keepCase = true
+			}
+		}
+		return true
+	})
 	b := func(x bool) string {
 		if x {
 			return "true"
@@ -143,10 +156,12 @@ func gen(t *tl.T) {
 	t.P("def danglingFalse : Bool := %s\n", b(danglingFalse))
 	t.P("def singleRoot : Bool := %s\n", b(assignRoot))
 	t.P("def idaPerLevel : Bool := %s\n", b(perLevel))
-	t.P("def relinkByValue : Bool := %s\n\n", b(keyed))
+	t.P("def relinkByValue : Bool := %s\n", b(keyed))
+	t.P("def keepKeywordCase : Bool := %s\n\n", b(keepCase))
 	t.P("end D2V.Gen.LinksCfg\n")
 	t.Fact("LinksCfg.danglingFalse=%v", danglingFalse)
 	t.Fact("LinksCfg.singleRoot=%v", assignRoot)
 	t.Fact("LinksCfg.idaPerLevel=%v", perLevel)
 	t.Fact("LinksCfg.relinkByValue=%v", keyed)
+	t.Fact("LinksCfg.keepKeywordCase=%v", keepCase)
 }
